@@ -41,3 +41,23 @@ Example C09_source_runs :
      ([Some [b "https://foo.example.com"]; Some [b "true"]; None], Some 204%Z, false);
      ([Some [b "https://foo.example.com"]; Some [b "true"]; None], None, true)].
 Proof. vm_compute. reflexivity. Qed.
+
+(* ---- the four methods that touch the state, translated from middleware.go (NewMiddleware, Reconfigure, SetDebug,
+   Config): over ANY history of calls they drive (configuration, debug) exactly as the documented state machine ---- *)
+Require Import Model.Mw Spec.DebugSM Proofs.SrcXferP.
+
+Theorem C09_source_methods_are_the_model_steps : forall ace ip6 psl ops st,
+  fold_left (go_step ace ip6 psl) ops st = run ace ip6 psl st ops.
+Proof. exact go_run_eq. Qed.
+Print Assumptions C09_source_methods_are_the_model_steps.
+
+Theorem C09_source_refines_state_machine : forall ace ip6 psl st ops, inv st ->
+  abs (fold_left (go_step ace ip6 psl) ops st) = sm_run (abs st) (map (sm_of ace ip6 psl) ops) /\
+  inv (fold_left (go_step ace ip6 psl) ops st).
+Proof. exact go_run_refines. Qed.
+Print Assumptions C09_source_refines_state_machine.
+
+Example C09_source_history_runs :
+  snd (fold_left (go_step ace ip6 psl) [OSetDebug true; OReconfigure (Some ex_c); OSetDebug true; OReconfigure None; OReconfigure (Some ex_c)] zero_mw) = false /\
+  snd (fold_left (go_step ace ip6 psl) [OReconfigure (Some ex_c); OSetDebug true] zero_mw) = true.
+Proof. split; vm_compute; reflexivity. Qed.
